@@ -13741,7 +13741,16 @@ func (l *Lowerer) registerUnusedLetBindings() {
 	if l.currentFunc == nil || l.currentFunc.NamedExpressions == nil {
 		return
 	}
-	for name, handle := range l.locals {
+	// Two unused let bindings can share one expression handle (let b = a;):
+	// visit the names in sorted order so the surviving name does not depend
+	// on map iteration order.
+	names := make([]string, 0, len(l.locals))
+	for name := range l.locals {
+		names = append(names, name)
+	}
+	sort.Strings(names)
+	for _, name := range names {
+		handle := l.locals[name]
 		// Skip local const declarations — they are inlined, not named expressions.
 		// Matches Rust naga where local const is Declared::Const, not in named_expressions.
 		if l.localConsts[name] {
